@@ -28,8 +28,14 @@ class Opaque:
 
 
 class Adt:
-    def __init__(self, name, variant, fields=()):
+    def __init__(self, name, variant, fields=(), names=None):
         self.name, self.variant, self.fields = name, variant, list(fields)
+        self.names = list(names) if names else None
+
+    def get(self, fname):
+        if self.names and fname in self.names:
+            return self.fields[self.names.index(fname)]
+        return None
 
     def __repr__(self):
         return "%s#%s%r" % (self.name, self.variant, self.fields)
@@ -44,8 +50,12 @@ class Adt:
 class Bytes:
     """a byte slice of which only a prefix is known; `minlen` bytes are known to exist"""
 
-    def __init__(self, known, minlen=None, tag=""):
+    def __init__(self, known, minlen=None, tag="", exact=None):
         self.known, self.minlen, self.tag = dict(enumerate(known)) if not isinstance(known, dict) else dict(known), (len(known) if minlen is None else minlen), tag
+        self.exact = exact          # exact length if it is part of the scenario
+        if exact is not None:
+            self.minlen = exact
+        self.range = None           # (start, end) if this value is a sub-slice taken with `&s[a..b]`
 
     def __repr__(self):
         return "Bytes(%s%r)" % (self.tag, self.known)
@@ -107,7 +117,10 @@ class Machine:
         self.models = dict(MODELS)
         if models:
             self.models.update(models)
-        self.pred_models = [(lambda n: n.endswith("::branch") and "Try" in n, _try_branch)]     # [(predicate on the normalised callee path, model)]
+        self.lenient = False      # nested local calls that cannot be evaluated yield Opaque instead of failing the whole evaluation
+        self.pred_models = [(lambda n: n.endswith("::branch") and "Try" in n, _try_branch), (lambda n: n.endswith("::index") and ("Index" in n or "slice::index" in n), _index),
+                            (lambda n: n in ("std::iter::range::next",) or (n.endswith("::next") and "ops::Range<" in n), _range_next),
+                            (lambda n: n.endswith("::from_residual"), _from_residual)]     # [(predicate on the normalised callee path, model)]
         self.max_steps, self.max_depth = max_steps, max_depth
         self.steps = 0
         self.trace = []           # local functions interpreted (for evidence)
@@ -186,6 +199,18 @@ class Machine:
                 fr["locals"][pl["l"]] = cur
                 return
         base = fr["locals"].get(pl["l"])
+        if isinstance(base, Adt) and all(q["k"] in ("deref", "field", "downcast") for q in pl["p"]):
+            # a store into a field of a modelled struct, possibly through `&mut self` (references are aliases of the same object)
+            tgt = base
+            fields_ = [q for q in pl["p"] if q["k"] == "field"]
+            for q in fields_[:-1]:
+                tgt = tgt.fields[q["i"]] if isinstance(tgt, Adt) and q["i"] < len(tgt.fields) else None
+            if isinstance(tgt, Adt) and fields_:
+                i = fields_[-1]["i"]
+                while len(tgt.fields) <= i:
+                    tgt.fields.append(Opaque("uninit"))
+                tgt.fields[i] = val
+                return
         if isinstance(base, Record) and all(q["k"] in ("deref", "field") for q in pl["p"]):
             # a store into a field of a modelled record (state update of `self`): remembered, later loads see it
             base.fields[".".join(q.get("name", str(q.get("i"))) for q in pl["p"] if q["k"] == "field")] = val
@@ -237,7 +262,7 @@ class Machine:
             op = rv["op"]
             if op == "PtrMetadata":
                 if isinstance(a, Bytes):
-                    return LenOf(a)
+                    return a.exact if a.exact is not None else LenOf(a)
                 return Opaque("len")
             if isinstance(a, int):
                 if op == "Not":
@@ -260,7 +285,7 @@ class Machine:
                 if rv["adt"].endswith("result::Result"):
                     return Adt("Result", 0 if rv["variant"] == "Ok" else 1, ops)
                 vi = names.index(rv["variant"]) if names and rv["variant"] in names else 0
-                return Adt(rv["adt"], vi, ops)
+                return Adt(rv["adt"], vi, ops, rv.get("fields"))
             if tag == "closure":
                 return ("closure", rv["closure"], ops)
             return Opaque("aggregate")
@@ -368,7 +393,14 @@ class Machine:
         if mir.is_local_call(info):
             b = self.body_of(name)
             if b is not None:
-                return self.run_body(b, args, depth + 1)
+                if not self.lenient:
+                    return self.run_body(b, args, depth + 1)
+                try:
+                    return self.run_body(b, args, depth + 1)
+                except Unsupported as ex:
+                    # a helper whose value the model cannot compute (formatting, diagnostics): its result is unknown; the caller only
+                    # fails if it then branches on it
+                    return Opaque("call %s: %s" % (n, str(ex)[:60]))
         return Opaque("call " + n)
 
     def call_closure(self, clo, args, depth):
@@ -393,6 +425,9 @@ def _len_cmp(op, a, b):
         if op not in flip:
             return None
         a, b, op = b, a, flip[op]
+    if a.b.exact is not None:
+        x = a.b.exact
+        return {"Gt": int(x > b), "Ge": int(x >= b), "Lt": int(x < b), "Le": int(x <= b), "Eq": int(x == b), "Ne": int(x != b)}.get(op)
     lo = a.b.minlen
     if op == "Gt" and lo > b or op == "Ge" and lo >= b or op == "Ne" and lo > b:
         return 1
@@ -408,7 +443,9 @@ def _loc(t):
 
 # ---- library model -------------------------------------------------------------------------------------------------------------
 def _len(m, a, d):
-    return LenOf(a[0]) if isinstance(a[0], Bytes) else Opaque("len")
+    if isinstance(a[0], Bytes):
+        return a[0].exact if a[0].exact is not None else LenOf(a[0])
+    return Opaque("len")
 
 
 def _is_empty(m, a, d):
@@ -506,6 +543,25 @@ def _find(m, a, d):
     return none()
 
 
+def _from_residual(m, a, d):
+    x = a[0]
+    if isinstance(x, Adt) and x.name == "Option":
+        return none()
+    if isinstance(x, Adt) and x.name == "Result":
+        return x
+    return Opaque("from_residual")
+
+
+def _range_next(m, a, d):
+    r = a[0]
+    if isinstance(r, Adt) and r.name.endswith("ops::Range") and len(r.fields) == 2 and all(isinstance(v, int) for v in r.fields):
+        if r.fields[0] < r.fields[1]:
+            r.fields[0] += 1
+            return some(r.fields[0] - 1)
+        return none()
+    return Opaque("range next")
+
+
 def _next(m, a, d):
     return a[0].next() if isinstance(a[0], OnceIter) else Opaque("next")
 
@@ -537,6 +593,19 @@ def _get(m, a, d):
 
 def _is_some(m, a, d):
     return int(a[0].variant == 1) if isinstance(a[0], Adt) and a[0].name == "Option" else Opaque("is_some")
+
+
+def _index(m, a, d):
+    x, i = a[0], a[1]
+    if isinstance(x, Bytes) and isinstance(i, Adt) and "Range" in i.name and len(i.fields) == 2 and all(isinstance(v, int) for v in i.fields):
+        r = Bytes({k - i.fields[0]: v for k, v in x.known.items() if i.fields[0] <= k < i.fields[1]}, minlen=max(i.fields[1] - i.fields[0], 0), tag=x.tag + "[..]", exact=max(i.fields[1] - i.fields[0], 0))
+        r.range = (i.fields[0], i.fields[1])
+        if x.exact is not None and (i.fields[1] > x.exact or i.fields[0] > i.fields[1]):
+            raise Unsupported("the modelled input panics: range %d..%d of a slice of length %d" % (i.fields[0], i.fields[1], x.exact))
+        return r
+    if isinstance(x, Bytes) and isinstance(i, int):
+        return x.known.get(i, Opaque("byte[%d]" % i))
+    return Opaque("index")
 
 
 def _try_branch(m, a, d):
